@@ -15,6 +15,12 @@ _WHITESPACE = (
 _LINE_TERMINATORS = "\n\r\u2028\u2029"
 
 
+# Decimal digits of numeric literals: ASCII only (str.isdigit() also accepts
+# superscripts, Arabic-Indic and full-width digits, which int()/float() then refuse)
+_DIGITS = "0123456789"
+_DIGITS_SET = ("0", "1", "2", "3", "4", "5", "6", "7", "8", "9")
+
+
 class Lexer:
     """Tokenizes JavaScript source code."""
 
@@ -210,7 +216,7 @@ class Lexer:
             # Could be 0, 0.xxx, or 0e... - fall through to decimal handling
 
         # Decimal number (integer part)
-        while self._current() and self._current().isdigit():
+        while self._current() and self._current() in _DIGITS:
             self._advance()
 
         # Decimal point
@@ -221,12 +227,12 @@ class Lexer:
             not (after_dot[:1].isalpha() or after_dot[:1] in ("_", "$"))
             or (
                 after_dot[:1] in ("e", "E")
-                and after_dot[1:].lstrip("+-")[:1].isdigit()
+                and after_dot[1:].lstrip("+-")[:1] in _DIGITS_SET
             )
         ):
             is_float = True
             self._advance()  # .
-            while self._current() and self._current().isdigit():
+            while self._current() and self._current() in _DIGITS:
                 self._advance()
 
         # Exponent
@@ -235,13 +241,13 @@ class Lexer:
             self._advance()
             if self._current() in "+-":
                 self._advance()
-            if not self._current() or not self._current().isdigit():
+            if not self._current() or not self._current() in _DIGITS:
                 raise JSSyntaxError("Invalid number literal", line, col)
-            while self._current() and self._current().isdigit():
+            while self._current() and self._current() in _DIGITS:
                 self._advance()
 
         num_str = self.source[start : self.pos]
-        if is_float:
+        if is_float or len(num_str) > 400:
             return float(num_str)
         return int(num_str)
 
@@ -272,7 +278,7 @@ class Lexer:
             return Token(TokenType.STRING, value, line, column)
 
         # Number literals
-        if ch.isdigit() or (ch == "." and self._peek().isdigit()):
+        if ch in _DIGITS or (ch == "." and self._peek() != "" and self._peek() in _DIGITS):
             value = normalize_number(self._read_number())
             return Token(TokenType.NUMBER, value, line, column)
 
